@@ -154,6 +154,9 @@ func newSpecProg(def *Def, env map[string]string) *specProg {
 					o.m[kv[0]] = kv[1]
 				}
 			}
+			if len(od.PreValue) > 0 && (od.Kind == Str || od.Kind == StrOpt) {
+				o.s = od.PreValue[0] // SetValue before Parse: the value, not the Called state
+			}
 			// environment (C12): read at definition time
 			if od.Env != "" {
 				if v, ok := env[od.Env]; ok && v != "" {
@@ -347,6 +350,22 @@ LOOP:
 			ex.RemainingAll = append(ex.RemainingAll, argv[i+1:]...)
 			break
 		}
+		if strings.HasPrefix(t, "-=") || strings.HasPrefix(t, "--=") {
+			// dashes directly followed by `=`: names no option.  Under require-order it is a token that is neither a
+			// known option nor a value nor a command either way (stop); otherwise whether it counts as text or as
+			// an unknown option is not stated (zone U4) - but it is never consumed, so the conservation view keeps it.
+			if sp.requireOrder(level) {
+				ex.StopIdx = i
+				ex.Remaining = append(ex.Remaining, argv[i:]...)
+				ex.RemainingAll = append(ex.RemainingAll, argv[i:]...)
+				break
+			}
+			sp.mark("U4")
+			ex.Remaining = append(ex.Remaining, t)
+			ex.RemainingAll = append(ex.RemainingAll, t)
+			i++
+			continue
+		}
 		if IsOptionLooking(t) {
 			if level.isHelp {
 				sp.mark("U16") // options given to the built-in help command
@@ -381,8 +400,8 @@ LOOP:
 				}
 				o := level.keys[m[0]]
 				o.called, o.calledAs = true, m[0]
-				if sp.def.Mode == 1 && pi < len(pairs)-1 && !o.def.Kind.IsFlag() {
-					sp.mark("U5")
+				if sp.def.Mode == 1 && pi < len(pairs)-1 && !o.def.Kind.IsFlag() && pairs[len(pairs)-1].attached != nil {
+					sp.mark("U5") // `-sv=x` with s taking a value: who gets x is not stated (without `=x`, s takes the following tokens like any occurrence)
 				}
 				if !sp.intake(ex, o, m[0], p.attached, argv, &i) {
 					break LOOP
@@ -604,7 +623,11 @@ func (sp *specProg) intake(ex *Expect, o *specOpt, used string, attached *string
 			if idx < 0 {
 				return fail("keyvalue")
 			}
-			o.m[v[:idx]] = v[idx+1:]
+			key := v[:idx]
+			if sp.def.MapLower {
+				key = strings.ToLower(key)
+			}
+			o.m[key] = v[idx+1:]
 		}
 		return true
 	}
@@ -641,8 +664,8 @@ func (sp *specProg) intake(ex *Expect, o *specOpt, used string, attached *string
 			return fail("missing-arg")
 		}
 		if IsOptionLooking(v) {
-			if strings.HasPrefix(v, "-=") || (v != "-" && strings.TrimLeft(v, "-") == "") {
-				sp.mark("U4")
+			if strings.HasPrefix(v, "-=") || strings.HasPrefix(v, "--=") || (v != "-" && strings.TrimLeft(v, "-") == "") {
+				sp.mark("U4v") // dashes followed by `=` (or only dashes) where a value is due: whether it is taken is not stated
 			}
 			return fail("dash-arg")
 		}
@@ -660,8 +683,8 @@ func (sp *specProg) intake(ex *Expect, o *specOpt, used string, attached *string
 			break
 		}
 		if IsOptionLooking(v) {
-			if strings.HasPrefix(v, "-=") {
-				sp.mark("U4")
+			if strings.HasPrefix(v, "-=") || strings.HasPrefix(v, "--=") {
+				sp.mark("U4v")
 			}
 			break
 		}
